@@ -148,7 +148,7 @@ def do_call(w, call):
         for name, d in docs_of(m):
             pd = d.policy_document
             try:
-                out.append((name, d.name, sorted(pd.get_allowed_actions()), sorted(pd.get_iam_actions()), [str(p) for p in pd.allowed_principals_with(re.compile(".*"))],
+                out.append((name, d.name, sorted(pd.get_allowed_actions()), sorted(pd.get_iam_actions()), sorted(str(p) for p in pd.allowed_principals_with(re.compile(".*"))),  # built from a set: its order is the hash seed's
                             len(pd.statements_with(re.compile(".*"))), [sorted(map(str, s.get_principal_list())) for s in pd.statement_as_list()]))
             except Exception as e:
                 out.append((name, "raises", common.exc_class(e)))
